@@ -1844,8 +1844,10 @@ handshake_downenc_autodetect(int dns_fd)
 			base128ok = 1;
 	}
 
-	/* If 128 works, then TXT may give us Raw as well */
-	if (running && (base128ok && do_qtype == T_TXT)) {
+	/* If 128 works, then TXT may give us Raw as well. The check pattern
+	   has every kind of byte Raw needs except '+', which only the Base64
+	   test sends: without that one passed, Raw is unproven. */
+	if (running && (base128ok && base64ok && do_qtype == T_TXT)) {
 		if (handshake_downenctest(dns_fd, 'R'))
 			return 'R';
 	}
@@ -2311,6 +2313,10 @@ fragsize_check(char *in, int read, int proposed_fragsize, int *max_fragsize)
 			fprintf(stderr, "%d corrupted at %d.. ", acked_fragsize, i);
 		}
 		fflush(stderr);
+		/* The answer had the right length and came back damaged: it
+		   is the codec that does not survive, not the size. A smaller
+		   size would only pass where the damage happens not to show. */
+		*max_fragsize = -1;
 		return 1;
 	}
 
